@@ -39,10 +39,19 @@ class Lock:
         self.f.close()
 
 
-def sh(cmd, cwd=None, timeout=600, env=None, input=None):
+def _limit_mem(gb):
+    def f():
+        import resource
+        lim = int(gb * (1 << 30))
+        resource.setrlimit(resource.RLIMIT_AS, (lim, lim))
+    return f
+
+
+def sh(cmd, cwd=None, timeout=600, env=None, input=None, mem_gb=None):
     try:
         p = subprocess.run(cmd, cwd=cwd, timeout=timeout, env=env, input=input,
-                           stdout=subprocess.PIPE, stderr=subprocess.STDOUT, text=True)
+                           stdout=subprocess.PIPE, stderr=subprocess.STDOUT, text=True,
+                           preexec_fn=_limit_mem(mem_gb) if mem_gb else None)
         return p.returncode, p.stdout
     except subprocess.TimeoutExpired as e:
         out = e.stdout if isinstance(e.stdout, str) else (e.stdout or b"").decode("utf8", "replace")
@@ -147,12 +156,12 @@ def coq_makefile():
         sh(["coq_makefile", "-f", "_CoqProject", "-o", "Makefile"], cwd=COQ)
 
 
-def coq_make(targets=None, timeout=3000):
+def coq_make(targets=None, timeout=1500):
     """Full .vo build (never -vos) of the given targets (default: everything)."""
     with Lock("coq"):
         coq_makefile()
         cmd = ["make", "-j16"] + (targets or [])
-        rc, out = sh(cmd, cwd=COQ, timeout=timeout)
+        rc, out = sh(cmd, cwd=COQ, timeout=timeout, mem_gb=10)   # per process (make -j16 forks several coqc)
         return rc == 0, out
 
 
@@ -218,7 +227,7 @@ def coq_eval(name, text, timeout=900):
     p = os.path.join(d, name + ".v")
     with open(p, "w", encoding="utf8") as f:
         f.write(text)
-    rc, out = sh(["coqc", "-R", ".", "Zn", "-w", "-notation-overridden,-deprecated-hint-without-locality", os.path.join("cases", name + ".v")], cwd=COQ, timeout=timeout)
+    rc, out = sh(["coqc", "-R", ".", "Zn", "-w", "-notation-overridden,-deprecated-hint-without-locality", os.path.join("cases", name + ".v")], cwd=COQ, timeout=timeout, mem_gb=12)
     for ext in (".vo", ".vok", ".vos", ".glob"):
         try:
             os.remove(os.path.join(d, name + ext))
